@@ -197,6 +197,22 @@ Print Assumptions C01_fifo.
 Example C01_closed_drops_queue : ex_closed_drop = true.
 Proof. vm_compute. reflexivity. Qed.
 
+(* ---- several connections in one process ---- *)
+(* In the models a connection's behaviour is a function of its own state and its own calls / octets only: two
+   connections side by side (run2: calls addressed to either one in any interleaving) write exactly what each would
+   write alone.  This is true BY CONSTRUCTION of the model (every piece of per-connection state of the code is a field
+   of the connection's model state); that the REAL objects share no state -- e.g. that the incremental UTF-8 validator,
+   the masker, the frame/message buffers are per instance and not per class/process -- is carried by the runs: the
+   "xconn" stage of harness/props/c01.py feeds several real connections of both roles living in one process with
+   interleaved segments of non-ASCII text (cuts inside code points) and each must deliver exactly what its own peer
+   sent.  The receive-side analogue for the receive model is stated over Model/WsRecv.v in Props/C01Join.v's terms:
+   delivery is a function of the connection's own stream. *)
+Theorem C01_product_noninterference : forall c1 c2 ks1 ks2 ops s1 s2,
+  let '((t1, t2), outs) := run2 c1 c2 ks1 ks2 s1 s2 ops in
+  (t1, sel true outs) = run c1 ks1 s1 (sel true ops) /\ (t2, sel false outs) = run c2 ks2 s2 (sel false ops).
+Proof. exact product_noninterference. Qed.
+Print Assumptions C01_product_noninterference.
+
 (* ---- role policy (also cited from Props/C15.v) ---- *)
 Theorem C01_role_policy_client : forall c ks nk op pl fin rsv,
   is_server c = false -> mask_client_frames c = true -> apply_mask c = true -> keys_ok ks ->
